@@ -2,7 +2,7 @@
 META = {
     "level": "fault_enumeration",
     "technique": "syscall-granular crash-point enumeration (vf.fsx) of the real StorageServer on real directories: the operation is re-executed once per crash index, a fresh StorageServer is built on the surviving directory and the statement's invariants are evaluated through the server API; in-process crash model cross-checked against strace (syscall trace equality per workload, real SIGKILL at the N-th system call for sampled crash points)",
-    "text": "Seeded workloads on a real allmydata.storage.server.StorageServer next to bystander shares (immutable and mutable, sharing prefix directories with the target): immutable upload (new storage index / next to existing shares, batched and unbatched writes, interleaved closes, a second upload still in progress), add_lease / renew_lease on immutable shares with 1..10 and mutable shares with 0..10 leases, mutable create, in-place write, grow (extra-lease relocation, zero fill), truncate, delete, multi-share writev, and the lease expirer (real LeaseCheckingCrawler.start_slice, cutoff-date mode) cancelling leases and deleting shares.  For EVERY operation index n of the workload (every completed write(2)/ftruncate/rename/unlink/mkdir/rmdir/creat, as decided by CPython's real buffering over a counting FileIO) the process is 'killed' before operation n, a fresh StorageServer is constructed on the directory and: (1) every share the operation does not target has identical data (full read through get_buckets/slot_readv, same length) and identical lease list, (2) after a lease-only operation every share's data is identical, (3) every immutable share present equals the model (complete) -- else it must be absent, (4) incoming/ is empty and the interrupted upload can be repeated.  Damage to the leases/data of the share being written is counted as observation only (the statement exempts it).",
+    "text": "Seeded workloads on a real allmydata.storage.server.StorageServer next to bystander shares (immutable and mutable, sharing prefix directories with the target): immutable upload (new storage index / next to existing shares, batched and unbatched writes, interleaved closes, a second upload still in progress), add_lease / renew_lease on immutable shares with 1..10 and mutable shares with 0..10 leases, mutable create, in-place write, grow (extra-lease relocation, zero fill), truncate, delete, multi-share writev, and the lease expirer (real LeaseCheckingCrawler.start_slice, cutoff-date mode) cancelling leases and deleting shares.  For EVERY operation index n of the workload (every completed write(2)/ftruncate/rename/unlink/mkdir/rmdir/creat, as decided by CPython's real buffering over a counting FileIO) the process is 'killed' before operation n, a fresh StorageServer is constructed on the directory and: (1) every share the operation does not target has identical data (full read through get_buckets/slot_readv, same length) and identical lease list, (2) after a lease-only operation every share's data is identical, (3) every immutable share present equals the model (complete) -- else it must be absent, (4) incoming/ is empty and the interrupted upload can be repeated.  Damage to the leases/data of the share being written is counted as observation only (the statement exempts it).  Every workload is first run to completion without a crash and judged by the same invariants, and every uncrashed set-up operation (the add_lease calls that give shares their 0..10 leases, the uploads and writes that create the bystanders) is judged as well: a lease-only operation changes no share's data and drops no lease, no operation changes a share it does not name; an exception of the code under test during set-up is reported through those findings, and makes the workload inconclusive only when nothing was found.",
     "note": "Crash model: SIGKILL (kernel keeps completed system calls, user-space buffers are lost); no power loss, no torn single write(2).  Trusts vf.fsx (validated against strace in the same run: a mismatch makes the run inconclusive) and the virtual clock substituted for time.time in storage.lease/crawler/expirer.",
 }
 LEVEL = "fault_enumeration"
@@ -175,15 +175,41 @@ class Scenario(object):
     def close(self):
         shutil.rmtree(self.tmp, ignore_errors=True)
 
-    def build(self):
-        ss = make_ss(self.template)
-        for op in self.setup_ops:
-            apply_op(ss, op)
+    def build(self, cutoff_marker=None):
+        """Run the set-up operations (no crash) on the template.  Every one of them is judged too: an
+        operation that only adds/renews leases must leave every share's data alone, any operation must leave the
+        shares of other storage indexes (and the shares it does not name) alone.  -> cut-off time (expire)"""
         from vf.checks import _storage
-        _storage.cancel_timers()
+        self.setup_findings = []
+        self.setup_lease_ops = 0
+        ss = make_ss(self.template)
+        cutoff = None
+        prev = snapshot(ss)
+        try:
+            for i, op in enumerate(self.setup_ops):
+                if i == cutoff_marker:
+                    cutoff = int(env.reactor.seconds())
+                if op["op"] == "advance":
+                    apply_op(ss, op)
+                    continue
+                err = None
+                try:
+                    apply_op(ss, op)
+                except Exception as e:          # raised by the code under test
+                    err = e
+                cur = snapshot(ss)
+                if op["op"] in ("add_lease", "renew_lease"):
+                    self.setup_lease_ops += 1
+                self.setup_findings += judge_uncrashed(op, prev, cur, "set-up of " + self.name)
+                prev = cur
+                if err is not None:
+                    raise SetupFailed(err, op, self.setup_findings)
+        finally:
+            _storage.cancel_timers()
         # an upload left open by the set-up belongs to a previous process: its incoming files go away
         shutil.rmtree(os.path.join(self.template, "shares", "incoming"), ignore_errors=True)
         self.now = env.reactor.seconds()
+        return cutoff
 
     def describe(self):
         return {"scenario": self.name, "params": self.params, "op": _short(self.op),
@@ -472,22 +498,63 @@ def _make_scenario(sc, name, rng):
         raise ValueError(name)
     # build the template; the expire scenario needs the cut-off time observed during the build
     if name == "expire":
-        ss = make_ss(sc.template)
-        for i, op in enumerate(sc.setup_ops):
-            if i == sc.params["_cutoff_marker"]:
-                cutoff = int(env.reactor.seconds())
-            apply_op(ss, op)
-        del sc.params["_cutoff_marker"]
-        from vf.checks import _storage
-        _storage.cancel_timers()
-        shutil.rmtree(os.path.join(sc.template, "shares", "incoming"), ignore_errors=True)
-        sc.now = env.reactor.seconds()
+        cutoff = sc.build(cutoff_marker=sc.params.pop("_cutoff_marker"))
         sc.ss_kw = {"expiration_enabled": True, "expiration_mode": "cutoff-date",
                     "expiration_cutoff_date": cutoff, "expiration_sharetypes": p["sharetypes"]}
         sc.cutoff = cutoff
     else:
         sc.build()
     return sc
+
+
+class SetupFailed(Exception):
+    """The code under test raised during an uncrashed set-up operation."""
+
+    def __init__(self, err, op, findings):
+        Exception.__init__(self, "%s: %s" % (type(err).__name__, str(err)[:200]))
+        self.err, self.op, self.findings = err, op, findings
+
+
+def judge_uncrashed(op, prev, cur, where):
+    """One operation ran to completion (no crash) between the snapshots prev and cur.
+    -> findings [(key, what, detail)] for the parts of the statement that need no crash: a lease-only
+    operation changes no share's data (and drops no lease), no operation touches shares it does not name."""
+    out = []
+    si = op.get("si")
+    kind = op["op"]
+    named = set()
+    if kind == "writev":
+        named = set(t[0] for t in op["tw"])
+    elif kind == "upload":
+        named = set(op["shnums"])
+    for key, before in sorted(prev.items()):
+        after = cur.get(key)
+        same_si = key[0] == si
+        if same_si and kind in ("writev",) and key[1] in named:
+            continue                                  # the share being written
+        label = "share %s/%d (%s)" % (key[0][:8], key[1], before["type"])
+        if after is None:
+            out.append(("share-vanished", "%s is gone after an uncrashed %s on %s [%s]" % (
+                label, kind, "its storage index" if same_si else "another storage index", where),
+                {"share": key, "op": _short(op)}))
+            continue
+        data_same = (after["error"] is None and after["data"] == before["data"]
+                     and after["length"] == before["length"])
+        if same_si and kind in ("add_lease", "renew_lease", "upload"):
+            if not data_same:
+                k = ("lease-op-changed-%s-data" % before["type"]) if kind != "upload" else "immutable-share-damaged"
+                out.append((k, "uncrashed %s changed the data of %s: %s [%s]" % (kind, label, diff(before, after),
+                                                                                  where),
+                            {"share": key, "op": _short(op), "diff": diff(before, after),
+                             "leases_before": len(before["leases"] or [])}))
+            elif after["lease_error"] is not None or lost_leases(before, after):
+                out.append(("uncrashed-lease-op-lost-leases", "uncrashed %s on %s: %s [%s]" % (
+                    kind, label, diff(before, after), where), {"share": key, "op": _short(op)}))
+            continue
+        if not data_same or after["lease_error"] is not None or after["leases"] != before["leases"]:
+            out.append(("non-target-share-changed", "%s, not named by the uncrashed %s, differs afterwards: %s [%s]" % (
+                label, kind, diff(before, after), where), {"share": key, "op": _short(op)}))
+    return out
 
 
 # ------------------------------------------------------------------ judging
@@ -500,7 +567,7 @@ def evaluate(workdir, sc, pre, fx):
     findings, obs = [], []
     ss2 = make_ss(workdir)           # the restart
     post = snapshot(ss2)
-    completed = not fx.crashed
+    completed = not fx.crashed and getattr(fx, "op_error", None) is None
     untouched = 0
     for key, before in sorted(pre.items()):
         after = post.get(key)
@@ -552,6 +619,13 @@ def evaluate(workdir, sc, pre, fx):
                                  {"share": key, "diff": diff(before, after)}))
             elif not data_same:
                 obs.append(("lease-target-data-changed-in-non-lease-op:" + sc.name, key))
+            elif completed and sc.lease_only and (after["lease_error"] is not None or lost_leases(before, after)):
+                findings.append(("uncrashed-lease-op-lost-leases", "%s ran to completion and share %s/%d: %s" % (
+                    sc.op["op"], key[0][:8], key[1], diff(before, after)), {"share": key}))
+            elif completed and sc.name in ("imm-add-lease", "mut-add-lease") \
+                    and len(after["leases"]) != len(before["leases"]) + 1:
+                obs.append(("added-lease-not-visible:" + before["type"], key, len(before["leases"]),
+                            len(after["leases"])))
             elif after["lease_error"] is not None:
                 obs.append(("lease-target-leases-unreadable:%s:%s" % (before["type"], sc.op["op"]), key,
                             after["lease_error"]))
@@ -711,11 +785,14 @@ def run_point(sc, n, pre):
     if pre is None:
         pre = snapshot(ss)
     fx = fsx.Fsx(root=work, crash_at=n)
+    fx.op_error = None
     with fx:
         try:
             apply_op(ss, sc.op)
         except fsx.Crash:
             pass
+        except Exception as e:                 # raised by the code under test (not a crash)
+            fx.op_error = "%s: %s" % (type(e).__name__, str(e)[:200])
     del ss
     return work, fx, pre
 
@@ -745,12 +822,17 @@ def run(ck):
                 continue
             try:
                 sc = make_scenario(name, ck.rng("scenario", rounds, name))
-            except Exception as e:
-                # the code under test failed while the pre-state was built (no crash involved): not a statement
-                # of C29, but the workload cannot be judged
-                ck.inconclusive_because("workload %s could not be set up: %s: %s" % (name, type(e).__name__,
-                                                                                       str(e)[:200]))
+            except SetupFailed as e:
+                # the code under test raised while the pre-state was built (no crash involved).  If an earlier
+                # uncrashed operation already damaged what it must not touch, that is the finding (and the likely
+                # cause); otherwise the workload simply cannot be judged.
                 _storage.cancel_timers()
+                for (key, what, detail) in e.findings:
+                    ck.violation(key, what, detail)
+                if e.findings:
+                    ck.observe("set-up-raised-after-damage")
+                else:
+                    ck.inconclusive_because("workload %s could not be set up: %s raised %s" % (name, e.op["op"], e))
                 continue
             try:
                 with ck.watchdog(240, "%s round %d" % (name, rounds)):
@@ -803,10 +885,28 @@ def enumerate_scenario(ck, sc, per_scenario, windows, fidelity_jobs, rounds):
     per["workloads"] += 1
     per["ops_max"] = max(per["ops_max"], N)
     points = []
-    for n in range(N + 1):
+    # the uncrashed set-up operations were judged while the template was built
+    if sc.setup_lease_ops:
+        ck.mon("lease-op-data-unchanged", sc.setup_lease_ops)
+    for (key, what, detail) in sc.setup_findings:
+        ck.violation(key, what, dict(desc, detail=detail))
+    # first the operation run to completion (index N), then every crash index
+    for n in [N] + list(range(N)):
         # crash index N: the operation completes (no crash point armed: a system call that FAILS after the
         # last mutation -- rmdir of a non-empty directory -- must not count as one)
         work, fx, _pre = run_point(sc, n if n < N else None, pre)
+        if fx.op_error is not None:
+            # the code under test raised although nothing crashed: judge what it left behind; without any
+            # finding the workload cannot be judged
+            findings, _obs, _info = evaluate(work, sc, pre, fx)
+            for (key, what, detail) in findings:
+                ck.violation(key, "%s [%s, uncrashed operation raised %s]" % (what, sc.name, fx.op_error),
+                             dict(desc, detail=detail))
+            if findings or sc.setup_findings:
+                ck.observe("uncrashed-operation-raised-after-damage")
+            else:
+                ck.inconclusive_because("workload %s: the uncrashed operation raised %s" % (sc.name, fx.op_error))
+            return
         if fx.crashed != (n < N):
             ck.inconclusive_because("harness: workload %s not deterministic (crash index %d of %d)"
                                     % (sc.name, n, N))
@@ -988,5 +1088,7 @@ def fidelity_stage(ck, jobs):
 #                                             ftruncate and write shows it)                   -> immutable-share-damaged
 #   c29-mutable-lease-add-touches-data-length mutable add_lease bumps and restores the data length (only a crash between
 #                                             the two writes shows it)                        -> lease-op-changed-mutable-data
+#   seeded/C29-4 (fifth mutable lease written over the first 92 data bytes, no crash needed)
+#                                             -> lease-op-changed-mutable-data (uncrashed set-up add_lease), uncrashed-lease-op-lost-leases
 # Tried and dropped: mis-placing mutable lease slots (offset arithmetic) -- those breaks make every set-up fail
 # (struct.error while the bystander shares are created): the run is inconclusive (exit 2), not a violation.
